@@ -614,6 +614,8 @@ type Backends struct {
 	DefaultBackend *Backend
 	// id of the default backend when the state was committed
 	defaultBackendCommitted string
+	// backends whose paths were changed in place, see PathsChanged()
+	pathsChanged map[string]*Backend
 }
 
 // BackendID ...
